@@ -96,7 +96,7 @@ package cors
 //@   local name string
 //@   local err *cfgerrors.UnacceptableMethodError
 //@   frozen E! F!util_Set
-//@   uses mem_empty method_tables
+//@   uses mem_empty method_tables byte_case
 //@   requires icfg != nil && icfg > 0
 //@   requires !icfg.allowAnyMethod && len(icfg.allowedMethods.elems) == 0 && SetInv(icfg.allowedMethods)
 //@   assigns icfg.allowAnyMethod
@@ -129,7 +129,7 @@ package cors
 //@   local normalized string
 //@   local s []string
 //@   frozen E! F!util_Set
-//@   uses mem_empty request_header_tables
+//@   uses mem_empty request_header_tables byte_case
 //@   requires icfg != nil && icfg > 0
 //@   requires !icfg.asteriskReqHdrs && !icfg.allowAuthorization && len(icfg.allowedReqHdrs.elems) == 0 && SetInv(icfg.allowedReqHdrs) && icfg.acah == nil
 //@   assigns icfg.asteriskReqHdrs
@@ -168,7 +168,7 @@ package cors
 //@   local err *cfgerrors.UnacceptableHeaderNameError
 //@   local normalized string
 //@   frozen E! F!util_Set
-//@   uses mem_empty response_header_tables
+//@   uses mem_empty response_header_tables byte_case
 //@   requires icfg != nil && icfg > 0
 //@   assigns icfg.aceh
 //@   ensures unchanged_below("E!Str")
